@@ -184,6 +184,7 @@ pub struct Stats {
     pub error_responses: u64,
     pub cancelled_responses: u64,
     pub reference_sessions: u64,
+    pub errors_compared: u64,
     pub oracle_unstable: u64,
     pub diagnostics_compared: u64,
     pub nontrivial: bool,
@@ -320,6 +321,7 @@ pub fn check(s: &Session, h: &History, stats: &mut Stats) -> Option<Violation> {
     }
     // (b) results are those of the version the request was issued against
     let mut groups: BTreeMap<Vec<(String, String)>, Vec<usize>> = BTreeMap::new();
+    let mut errored: Vec<usize> = Vec::new();
     for (i, v) in &at_version {
         let Op::Request { id, .. } = &s.ops[*i].op else { continue };
         stats.requests += 1;
@@ -328,10 +330,82 @@ pub fn check(s: &Session, h: &History, stats: &mut Stats) -> Option<Violation> {
             stats.error_responses += 1;
             if e["code"].as_i64() == Some(-32800) {
                 stats.cancelled_responses += 1;
+                // A cancellation needs a cause: something that changes the analysis must have been
+                // handed to the server between this request and its answer (or a task of the run
+                // panicked: whoever waits for a query of a panicking task is cancelled as well).
+                let sent_step = h.events.iter().find_map(|e| match e { Ev::Sent { op, step } if op == i => Some(*step), _ => None });
+                let recv_step = h.events.iter().find_map(|e| match e {
+                    Ev::Recv { msg, step } if msg.get("method").is_none() && msg.get("id").and_then(|x| x.as_i64()) == Some(*id) => Some(*step),
+                    _ => None,
+                });
+                let cause = h.events.iter().any(|e| match e {
+                    Ev::Sent { op, step } => {
+                        matches!(s.ops[*op].op, Op::Change { .. } | Op::Open { .. } | Op::Watched { .. })
+                            && sent_step.map_or(true, |a| *step >= a)
+                            && recv_step.map_or(true, |b| *step <= b)
+                    }
+                    _ => false,
+                });
+                let any_panic = h.faults.get("query_crash").copied().unwrap_or(0) > 0
+                    || resp.values().flatten().any(|x| x["error"]["code"].as_i64() == Some(-32603));
+                if !cause && !any_panic {
+                    let Op::Request { method, .. } = &s.ops[*i].op else { continue };
+                    return Some(Violation {
+                        oracle: "cancellation_has_a_cause".into(),
+                        kinds: vec![format!("req.{method}")],
+                        detail: format!("request id {id} ({method}) was answered 'cancelled' although no edit, open or file event was sent between the request and its answer"),
+                    });
+                }
+            } else {
+                errored.push(*i);
             }
             continue;
         }
         groups.entry(v.clone()).or_default().push(*i);
+    }
+    // An error other than a cancellation must be what a sequential server says as well (document
+    // not loaded, rename refused, a query that panics on this input, ...), unless a panic was
+    // injected into a task of this run.
+    if h.faults.get("query_crash").copied().unwrap_or(0) == 0 {
+        for i in &errored {
+            let Op::Request { id, method, .. } = &s.ops[*i].op else { continue };
+            let version = &at_version.iter().find(|(k, _)| k == i).unwrap().1;
+            let root_uri = format!("file://{}", s.root);
+            let mut ops = preamble(Some(&root_uri));
+            for (u, t) in version {
+                if u == "#disk_ops" {
+                    for k in disk_ops.iter().take(t.parse::<usize>().unwrap_or(0)) {
+                        ops.push(PlannedOp::new(s.ops[*k].op.clone()));
+                    }
+                } else {
+                    ops.push(PlannedOp::new(Op::Open { uri: u.clone(), text: t.clone() }));
+                }
+            }
+            ops.push(PlannedOp::new(Op::Barrier));
+            ops.push(PlannedOp::new(s.ops[*i].op.clone()));
+            ops.push(PlannedOp::new(Op::Barrier));
+            let rh = reference_session(s, ops, s.hash_seed);
+            stats.reference_sessions += 1;
+            let want = rh.responses().get(id).and_then(|v| v.first()).map(|x| (*x).clone());
+            stats.errors_compared += 1;
+            if want.as_ref().map_or(false, |w| w.get("result").is_some()) {
+                // a cycle between two modules makes whoever comes second fail; which task that is
+                // depends on the schedule (C10's domain: the panic is there for every schedule)
+                let got = &resp[id][0];
+                if got["error"]["message"].as_str().map_or(false, |m| m.contains("cycle detected")) {
+                    stats.oracle_unstable += 1;
+                    continue;
+                }
+                return Some(Violation {
+                    oracle: "error_only_where_sequential_errs".into(),
+                    kinds: vec![format!("req.{method}")],
+                    detail: format!(
+                        "request id {id} ({method}) was answered with the error {} but a sequential server holding the documents as of the request answers with a result",
+                        got["error"].to_string().chars().take(200).collect::<String>()
+                    ),
+                });
+            }
+        }
     }
     for (version, reqs) in &groups {
         let build = |hash_seed: u64| -> (History, Vec<i64>) {
